@@ -26,7 +26,8 @@ CONSTANTS Scope,          \* "quick" | "thorough" : which configurations Init en
 VARIABLES pc, cfg, layer, pair, M
 vars == <<pc, cfg, layer, pair, M>>
 
-Base == 8                         \* sub-aperture diameter at the ground, in hu
+Base == 8                         \* reference sub-aperture diameter at the ground, in hu
+Dia(i) == cfg.dia[i]              \* this sensor's sub-aperture diameter at the ground (8 or 16 hu)
 \* ---- geometry ------------------------------------------------------------------------------------------------
 Less(a, b) == a[1] < b[1] \/ (a[1] = b[1] /\ a[2] < b[2])
 RECURSIVE Ordered(_)
@@ -38,13 +39,13 @@ S2(i, l) == IF cfg.lgs[i] /\ cfg.heights[l] > 0 THEN 1 ELSE 2
 \* translation of WFS i at layer l (hu): guide-star offset times height index
 T(i, l) == << cfg.off[i][1] * cfg.heights[l], cfg.off[i][2] * cfg.heights[l] >>
 \* centre of sub-aperture <<r, c>> on an n x n grid of Base-wide cells, origin at the telescope centre
-Centre(i, cell) == << (2 * cell[1] + 1 - cfg.n[i]) * (Base \div 2), (2 * cell[2] + 1 - cfg.n[i]) * (Base \div 2) >>
+Centre(i, cell) == << (2 * cell[1] + 1 - cfg.n[i]) * (Dia(i) \div 2), (2 * cell[2] + 1 - cfg.n[i]) * (Dia(i) \div 2) >>
 \* projected centre and half-diameter at layer l  (S2/2 is the cone factor; Base * S2 / 4 the half diameter)
 \* snapshot: the code subtracted subap_diameter/2 instead of adding it (every centre one sub-aperture too low)
-CodeCentre(i, cell) == LET c == Centre(i, cell) IN IF Variant = "snapshot" THEN << c[1] - Base, c[2] - Base >> ELSE c
+CodeCentre(i, cell) == LET c == Centre(i, cell) IN IF Variant = "snapshot" THEN << c[1] - Dia(i), c[2] - Dia(i) >> ELSE c
 ImplPos(i, a, l) == LET c == CodeCentre(i, Cells(i)[a]) IN << (S2(i, l) * c[1]) \div 2 + T(i, l)[1], (S2(i, l) * c[2]) \div 2 + T(i, l)[2] >>
 Pos(i, a, l) == LET c == Centre(i, Cells(i)[a]) IN << (S2(i, l) * c[1]) \div 2 + T(i, l)[1], (S2(i, l) * c[2]) \div 2 + T(i, l)[2] >>
-HalfD(i, l) == (Base * S2(i, l)) \div 4
+HalfD(i, l) == (Dia(i) * S2(i, l)) \div 4
 
 Q(x, y) == x * x + y * y
 \* a bag of atoms as a sequence; Norm merges equal (layer, q) and drops zero coefficients
@@ -137,17 +138,24 @@ Offsets == { <<0, 0>>, <<4, 0>>, <<0, -4>>, <<4, 4>> }
 Init ==
     /\ pc = "assemble" /\ layer = 1 /\ pair = <<1, 1>>
     /\ \/ \E m1 \in AllMasks(2), m2 \in Rep2, g1 \in BOOLEAN, g2 \in BOOLEAN, o1 \in {<<0,0>>, <<0,-4>>}, o2 \in Offsets, nl \in 1..2 :
-             /\ (Scope = "quick" => (o2 \in {<<0,0>>, <<4,0>>, <<4,4>>} /\ (g1 => g2) /\ nl = 2))
-             /\ cfg = [nw |-> 2, masks |-> <<m1, m2>>, n |-> <<2, 2>>, lgs |-> <<g1, g2>>, off |-> <<o1, o2>>,
+             /\ (Scope = "quick" => (o2 \in {<<0,0>>, <<4,0>>, <<4,4>>} /\ nl = 2 /\ ((g1 /\ ~g2) => m2 \in {Grid(2), {<<0,0>>, <<0,1>>, <<1,0>>}})))
+             /\ cfg = [nw |-> 2, masks |-> <<m1, m2>>, n |-> <<2, 2>>, dia |-> <<8, 8>>, lgs |-> <<g1, g2>>, off |-> <<o1, o2>>,
                        heights |-> IF nl = 1 THEN <<1>> ELSE <<0, 1>>]
        \/ \E m1 \in Asym3 \cup {Grid(3)}, g1 \in BOOLEAN, o1 \in {<<0,0>>, <<4,4>>} :
-             cfg = [nw |-> 1, masks |-> <<m1>>, n |-> <<3>>, lgs |-> <<g1>>, off |-> <<o1>>, heights |-> <<0, 1>>]
+             cfg = [nw |-> 1, masks |-> <<m1>>, n |-> <<3>>, dia |-> <<8>>, lgs |-> <<g1>>, off |-> <<o1>>, heights |-> <<0, 1>>]
        \/ \E m1 \in Rep2, m2 \in {Grid(2), {<<0,0>>, <<0,1>>, <<1,0>>}}, o1 \in {<<0,0>>, <<0,-4>>}, o2 \in {<<4,0>>, <<4,4>>} :
              \* two elevated layers, natural guide stars only (translations must not accumulate from one layer to the next)
-             cfg = [nw |-> 2, masks |-> <<m1, m2>>, n |-> <<2, 2>>, lgs |-> <<FALSE, FALSE>>, off |-> <<o1, o2>>, heights |-> <<1, 2>>]
+             cfg = [nw |-> 2, masks |-> <<m1, m2>>, n |-> <<2, 2>>, dia |-> <<8, 8>>, lgs |-> <<FALSE, FALSE>>, off |-> <<o1, o2>>, heights |-> <<1, 2>>]
+       \/ \E m1 \in Rep2, g1 \in BOOLEAN, g2 \in BOOLEAN, o1 \in {<<0,0>>, <<0,-4>>}, o2 \in {<<0,0>>, <<4,4>>}, swap \in BOOLEAN :
+             \* sensors with DIFFERENT sub-aperture sizes on the same telescope: a 2x2 grid of 8 hu cells and one 16 hu cell
+             cfg = IF swap THEN [nw |-> 2, masks |-> <<{<<0,0>>}, m1>>, n |-> <<1, 2>>, dia |-> <<16, 8>>, lgs |-> <<g1, g2>>, off |-> <<o1, o2>>, heights |-> <<0, 1>>]
+                           ELSE [nw |-> 2, masks |-> <<m1, {<<0,0>>}>>, n |-> <<2, 1>>, dia |-> <<8, 16>>, lgs |-> <<g1, g2>>, off |-> <<o1, o2>>, heights |-> <<0, 1>>]
+       \/ \E m1 \in Rep2, g1 \in BOOLEAN, g2 \in BOOLEAN, o2 \in {<<40, -24>>, <<-32, 0>>} :
+             \* wide field: the two beams do not overlap at the upper layer (separation 2.5 telescope diameters)
+             cfg = [nw |-> 2, masks |-> <<m1, Grid(2)>>, n |-> <<2, 2>>, dia |-> <<8, 8>>, lgs |-> <<g1, g2>>, off |-> << <<0,0>>, o2>>, heights |-> <<0, 1>>]
        \/ /\ Scope = "thorough"
           /\ \E m1 \in Rep2, m2 \in Rep2, m3 \in {Grid(2), {<<0,1>>, <<1,0>>, <<1,1>>}}, g \in [1..3 -> BOOLEAN], o2 \in Offsets, o3 \in {<<0,0>>, <<-4,4>>} :
-                cfg = [nw |-> 3, masks |-> <<m1, m2, m3>>, n |-> <<2, 2, 2>>, lgs |-> <<g[1], g[2], g[3]>>, off |-> << <<0,0>>, o2, o3>>,
+                cfg = [nw |-> 3, masks |-> <<m1, m2, m3>>, n |-> <<2, 2, 2>>, dia |-> <<8, 8, 8>>, lgs |-> <<g[1], g[2], g[3]>>, off |-> << <<0,0>>, o2, o3>>,
                        heights |-> <<0, 1>>]
     /\ M = [r \in 1..Dim |-> [c \in 1..Dim |-> <<>>]]
 
@@ -172,7 +180,7 @@ AdditiveOverLayers == [][ pc = "assemble" => \A r, c \in 1..Dim : Len(M'[r][c]) 
 
 SetToSeq(S) == LET RECURSIVE f(_) f(W) == IF W = {} THEN <<>> ELSE LET e == CHOOSE e \in W : TRUE IN <<e>> \o f(W \ {e}) IN f(S)
 EmitCase == (Emit /\ Done) =>
-    PrintT(ToJson([kind |-> "covmat", nw |-> cfg.nw, n |-> cfg.n, lgs |-> cfg.lgs, off |-> cfg.off, heights |-> cfg.heights,
+    PrintT(ToJson([kind |-> "covmat", nw |-> cfg.nw, n |-> cfg.n, dia |-> cfg.dia, lgs |-> cfg.lgs, off |-> cfg.off, heights |-> cfg.heights,
                    masks |-> [i \in 1..cfg.nw |-> Cells(i)], dim |-> Dim,
                    s2 |-> [i \in 1..cfg.nw |-> [l \in 1..NLayers |-> S2(i, l)]],
                    def |-> [r \in 1..Dim |-> [c \in 1..r |-> SetToSeq(DefEntry(r, c))]],
